@@ -2,9 +2,9 @@
 # usage: mx_try.sh <seed name under /tmp/seeds or /verif/seeded> [check IDs...]
 # Runs quick checks against a seed in a second scratch copy (/root/scratch/mx2) so that /repo stays untouched.
 set -u
-MX=/root/scratch/mx2
+MX=${MX:-/root/scratch/mx2}
 n="$1"; shift
-P=/tmp/seeds/$n/patch.diff; [ -f "$P" ] || P=/verif/seeded/$n/patch.diff; [ -f "$P" ] || P=/verif/mutants/$n.patch
+P=/tmp/seeds/$n/patch.diff; [ -f "$P" ] || P=/verif/seeded/$n/patch.diff; [ -f "$P" ] || P=/verif/mutants/$n.patch; [ -f "$P" ] || P=/tmp/benign/$n/patch.diff; [ -f "$P" ] || P=/verif/benign/$n/patch.diff
 [ -f "$P" ] || { echo "no patch for $n"; exit 2; }
 ids=("$@"); [ ${#ids[@]} -eq 0 ] && ids=(${n%%_*})
 mkdir -p $MX/logs
